@@ -1,4 +1,5 @@
 """C01 - decoding arbitrary bytes never touches memory outside the given slice."""
+import random
 from ..core import Case
 from .. import decsupport as D
 from ..gen import hx
@@ -54,6 +55,25 @@ def generate(rng, tier):
     tb = 40 if tier == "quick" else 1000
     for start, et, data, meta in D.base_inputs(rng, n, tb):
         yield build(meta)
+    # the reader-based decoders (C06's operations, run on both guard-page placements like every decoding door): a
+    # value handed out by `read` has to be the one the slice decoder hands out for the same bytes - a reader that
+    # leaves part of its result unwritten shows up here as a result that is no function of the input
+    from . import c06
+    r2 = random.Random(rng.randrange(1 << 30))
+    for start, et, data, meta in D.base_inputs(r2, 2500 if tier == "quick" else 60000, 10 if tier == "quick" else 300):
+        m2 = dict(meta)
+        m2["k3"] = "read"
+        c = c06.build(m2)
+        if c is not None:
+            yield Case(c.lines, dict(c.meta, reader=1))
+    # ARP with every address size class through both doors (the sizes are attacker controlled octets)
+    for hl, pl in [(6, 4), (8, 4), (6, 16), (0, 0), (255, 255), (1, 255), (255, 0), (7, 5), (20, 4)]:
+        for hw, pt in [(1, 0x0800), (1, 0x86DD), (6, 0x0800), (rng.randrange(65536), rng.randrange(65536))]:
+            body = bytes(rng.randrange(1, 256) for _ in range(2 * hl + 2 * pl + rng.choice([0, 0, 5])))
+            d = bytes([hw >> 8, hw & 255, pt >> 8, pt & 255, hl, pl, 0, rng.choice([1, 2])]) + body
+            for cut in (len(d), 28, 8 + 2 * hl + 2 * pl - 1):
+                if 0 <= cut <= len(d):
+                    yield Case(["impl.dec.read_arp\t" + hx(d[:cut]), "dec.arp\t" + hx(d[:cut])], {"reader": 1, "start": "et", "et": 0x0806, "data": hx(d[:cut]), "k3": "read"})
     # the chain that stops early (regression input of the repaired defect F1) and relatives
     base = bytes.fromhex("6000000000100040" + "00" * 32)
     for nh2 in (0, 43, 44, 51, 60):
@@ -79,6 +99,13 @@ MARKERS = ("fault(", "!outside", "!placement")
 
 def oracle(c):
     out = []
+    if c.meta.get("reader"):
+        from . import c06
+        for line, o in zip(c.lines, c.impl):
+            if o and o.startswith("slice=") and "|read=" in o:
+                s_, r_ = o[6:].split("|read=", 1)
+                if s_.startswith("ok(") and r_.startswith("ok(") and s_ != r_.replace("!accessor-mismatch", ""):
+                    out.append(("reader-result-is-no-function-of-the-input", {"line": line[:300], "slice": s_[:400], "read": r_[:400]}))
     for line, o in zip(c.lines, c.impl):
         if o is None:
             out.append(("no-output", {"line": line[:200]}))
